@@ -14,8 +14,16 @@ Oracle (on the real code alone), applied to EVERY evaluation this module perform
 
 Parts: `sweep` (every registered function x every position that admits a raw list / dict / set, nested values,
 both yaql.convertInputData modes, function and method spellings, several lambdas), `pool` (statement / context
-reuse), `ctx` (C17 forests incl. multi / linked contexts: real trace replayed on the Lean model), `conv` (the
-converters with allocation identities: model vs real `is`-sharing), `yaqlized`."""
+reuse; statements parsed by factory-built engines, by `engine.copy(options)` and by `engine(text, options=..)` of an
+engine with the opposite conversion options that ran the text before), `ctx` (C17 forests incl. multi / linked
+contexts: real trace replayed on the Lean model; evaluations through `Statement.evaluate` and through
+`YaqlInterface(ctx, engine)(text, *args, **kwargs)` = `Effects.interfaceCall`), `conv` (the converters with
+allocation identities: model vs real `is`-sharing), `yaqleval`, `provenance` (base engine x derived engine over the
+4 x 4 combinations of convertInputData / convertOutputData, derived by copy / kept copy / per-call options / copy of a
+copy, either one parsing the text first: every evaluation judged by the options of the engine the host USED),
+`entry` (sessions of a host-built YaqlInterface around a plain / multi / linked context: calls with positional and
+keyword parameters, function stubs, `on(..)`, item access, the host's own bindings, interleaved statement
+evaluations; `yaql.create_context(data=..)`; full snapshots and history independence), `yaqlized`."""
 import ast
 import copy
 import datetime
@@ -28,6 +36,7 @@ import struct
 import sys
 import time
 import traceback
+import zlib
 
 import common
 import pyfacts
@@ -47,7 +56,8 @@ REQUIRED_THEOREMS = ['Yaql.Props.C09.' + n for n in (
     'convert_input_fresh', 'convert_output_fresh', 'convert_output_no_alias_with_conversion_off',
     'output_conversion_off_aliases', 'convInI_erase', 'convOutI_erase',
     'frame', 'discipline_fresh', 'context_frame', 'only_dollar', 'only_dollar_reads', 'dollar_bound',
-    'reeval', 'reeval_pool', 'context_clause_partial', 'eval_C09_full', 'eval_reeval_pool',
+    'reeval', 'reeval_pool', 'context_clause_partial', 'interface_call_frame', 'interface_call_reads',
+    'interface_history_independent', 'interface_probe_reads', 'eval_C09_full', 'eval_reeval_pool',
     'stmtOfEvalS_local', 'stmtOfEvalS_disciplined', 'evalS_C09_full', 'evalS_context_frame', 'evalS_only_dollar',
     'evalS_only_dollar_reads', 'evalS_reeval_pool')] + [
         'Yaql.Props.C09Gen.no_param_mutation', 'Yaql.Props.C09Gen.table_nonvacuous'] + ['Yaql.Props.EvalStore.' + n for n in (
@@ -69,7 +79,12 @@ ASSUMPTIONS = ['aliasing is modelled with allocation identities carried by conta
                'host documents are lists / dicts / sets (tuples, scalars) - the property\'s quantifier; generators, '
                'frozensets and dict views are wrapped lazily by convert_input_data (modelled, '
                'convert_input_lazy_holds_source) and are outside the no-alias claim',
-               'yaql.convertOutputData off hands values out as they are (output_conversion_off_aliases): outside the claim']
+               'yaql.convertOutputData off hands values out as they are (output_conversion_off_aliases): outside the claim; '
+               'the engine that counts is the one the host used for the evaluation (a statement made by engine.copy(o) / '
+               'engine(text, options=o) carries the merged options)',
+               'YaqlInterface.__call__ is modelled as a host step over the context store (Effects.interfaceCall); its '
+               'evaluator runs are step sequences with the NoHostWrite hypothesis like those of Statement.evaluate; the '
+               'function stubs yi.f(..) and item access are covered dynamically only']
 
 
 def generate():
@@ -356,11 +371,14 @@ class World:
         return st
 
     def run(self, st, data, ctx, timeout=2.0):
+        return self.call(lambda: st.evaluate(data=data, context=ctx), timeout)
+
+    def call(self, fn, timeout=2.0):
         signal.signal(signal.SIGALRM, _alarm)
         signal.setitimer(signal.ITIMER_REAL, timeout)
         try:
             try:
-                return ('ok', st.evaluate(data=data, context=ctx))
+                return ('ok', fn())
             finally:
                 signal.setitimer(signal.ITIMER_REAL, 0)
         except Timeout:
@@ -390,13 +408,16 @@ def host_chain(root, hv, hostvars=None):
     return l3
 
 
-def observe(world, text, data, mode, make_ctx=None, bound=True, eopts=None, bare=False):
-    """one evaluation with every oracle around it.  Returns (outcome, [(key, what)])."""
+def observe(world, text, data, mode, make_ctx=None, bound=True, eopts=None, bare=False, st=None):
+    """one evaluation with every oracle around it.  Returns (outcome, [(key, what)]).
+    `st`: a statement the caller obtained some other way (engine.copy, per-call options, ...); `eopts['conv_out']` then
+    says whether the engine the host USED has output conversion on."""
     fails = []
     eo = dict(conv_in=mode)
     eo.update(eopts or {})
     try:
-        st = world.parse(text, **eo)
+        if st is None:
+            st = world.parse(text, **eo)
     except Exception as e:      # noqa
         return ('err', 'parse:' + type(e).__name__), fails
     hv = [1, [2, 3], {'k': [4]}]
@@ -428,6 +449,11 @@ def observe(world, text, data, mode, make_ctx=None, bound=True, eopts=None, bare
     if expr_snapshot(st.expression) != sb:
         fails.append(('statement-changed', 'the parsed statement carries new state after the evaluation: %s' %
                       first_diff(sb, expr_snapshot(st.expression))))
+    world.last_canon = deep(out[1], (), []) if out[0] == 'ok' else None       # the result before it is scrambled below
+    try:
+        world.last_out = (out[0], copy.deepcopy(out[1]))
+    except Exception:       # noqa - an iterator
+        world.last_out = (out[0], repr(out[1]))
     if out[0] == 'ok' and eo.get('conv_out', True) and not bare:       # without a finaliser values are handed out as they are
         nodes = []
         walk_result(out[1], nodes)
@@ -852,9 +878,24 @@ def run_pool(world, res, rng, tier, hist):
         shared = host_chain(world.root, hv)
         texts = list(POOL)
         stmts = {}
+        target = world.engine(conv_in=mode, t2l=t2l, s2l=s2l)
+        # where the engine comes from: built by the factory, or derived - engine.copy(options) / engine(text, options=..) -
+        # from a base engine with the OPPOSITE conversion options that parsed (and ran) the same text before
+        other = world.engine(conv_in=not mode, conv_out=bool(rd % 4 < 2), t2l=not t2l, s2l=not s2l)
+        dopts = dict(target.options)
+        dopts.setdefault(CO, True)
+        dopts.setdefault('yaql.convertTuplesToLists', True)
+        dopts.setdefault('yaql.convertSetsToLists', False)
         for t in texts:
             try:
-                stmts[t] = world.engine(conv_in=mode, t2l=t2l, s2l=s2l)(t)       # one parse per statement, reused below
+                via = (zlib.crc32(t.encode()) + rd) % 3
+                hist['pool-statement-via-' + ['factory', 'copy', 'percall'][via]] = hist.get(
+                    'pool-statement-via-' + ['factory', 'copy', 'percall'][via], 0) + 1
+                if via == 0:
+                    stmts[t] = target(t)       # one parse per statement, reused below
+                else:
+                    world.run(other(t), POOL_DATA[0](), host_chain(world.root, [1, [2, 3]]))
+                    stmts[t] = other.copy(dopts)(t) if via == 1 else other(t, options=dopts)
             except Exception:   # noqa
                 pass
         docs = [mk() for mk in POOL_DATA]       # host documents that live across evaluations
@@ -941,6 +982,21 @@ def run_yaqleval(world, res, rng, tier, hist):
         if d:
             res.fail('oracle', 'data-mutated', 'yaql.eval(%r) changed its data: %s' % (t, d), rp)
             return
+        canon = deep(out[1], (), []) if out[0] == 'ok' else None
+        if out[0] == 'ok':
+            ids = {id(o): pth for pth, o in before.nodes if type(o) in MUTABLE}
+            nodes = []
+            walk_result(out[1], nodes)
+            hit = [n for n in nodes if type(n) in MUTABLE and id(n) in ids]
+            if hit:
+                res.fail('oracle', 'result-aliases-host', 'yaql.eval(%r, %s): a %s of the result IS the host object at %s' % (
+                    t, rp['data'], type(hit[0]).__name__, ids[id(hit[0])]), rp)
+                return
+            scramble(nodes)
+            d = before.diff(Snapshot(data))
+            if d:
+                res.fail('oracle', 'result-aliases-host', 'yaql.eval(%r, %s): changing the result changed the data: %s' % (t, rp['data'], d), rp)
+                return
         dc = getattr(yaql, '_default_context', None)
         if dc is not None:
             snap = ctx_snapshot(ctx_objects(dc))
@@ -950,11 +1006,400 @@ def run_yaqleval(world, res, rng, tier, hist):
                 return
             cb = (dc, snap)
         ref = world.run(ref_engine(t), copy.deepcopy(data), yaql.create_context())
-        same = (out[0] == ref[0]) and (out[1] == ref[1] if out[0] == 'err' else canon_result(out[1]) == canon_result(ref[1]))
+        same = (out[0] == ref[0]) and (out[1] == ref[1] if out[0] == 'err' else canon == canon_result(ref[1]))
         if not same and 'Timeout' not in (out[1], ref[1]):
             res.fail('oracle', 'reuse-differs', 'yaql.eval(%r, %s) gives %s, a fresh engine on a fresh context gives %s' % (
-                t, short(data), short(out), short(ref)), rp)
+                t, short(data), short(canon if canon is not None else out), short(ref)), rp)
             return
+
+
+# ====================================================================================== provenance (how the engine came to be)
+
+CI, CO = 'yaql.convertInputData', 'yaql.convertOutputData'
+CONV = [(True, True), (True, False), (False, True), (False, False)]       # (convertInputData, convertOutputData)
+PROV_TEXTS = [
+    '$', '$.a', '$.d', '[$.a, $.d]', '$.d.get(a)', '$.d.b', 'let(x => $.a) -> $x', '$.a.toList()', '$.d.set(z, $.a)',
+    '$.a.len()', '$hostList', '[$hostList, $.a]', '$.a + $.a', 'dict(k => $.a)', '$.d.values().toList()', '$.a.first()',
+    '$.a.where(true).toList()', 'switch(true => $.d)', '$.a[1]', '$.d.a',
+]
+PROV_DATA = [
+    lambda: {'a': [3, [1], {'k': [2]}], 'd': {'a': [1, 2], 'b': {'c': [3]}}},
+    lambda: {'a': [[], [4, 5]], 'd': {'a': {'x': [7]}, 'b': []}},
+    lambda: {'a': [0, [1, [2]]], 'd': {'a': 1, 'b': {'s': {1, 2}}}},
+]
+DERIVATIONS = ['copy', 'copy-kept', 'percall', 'copy-of-copy']
+
+
+def opaque_in(d):
+    if isinstance(d, tuple):
+        return (len(d) == 3 and d[0] == 'opaque') or any(opaque_in(x) for x in d)
+    if isinstance(d, frozenset):
+        return any(opaque_in(x) for x in d)
+    return False
+
+
+def run_provenance(world, res, rng, tier, hist):
+    """Engines are values the host derives from each other: `engine.copy(options)`, `engine(text, options=...)`.  One
+    history = a base engine built by the factory with one of the four (convertInputData, convertOutputData)
+    combinations, an engine derived from it with another (or the same) combination, ONE expression text and ONE host
+    document; base and derived engine take turns parsing and evaluating the text (either may come first).  Every single
+    evaluation is judged by the options of the engine the host used for it: data snapshot, alias scan + scrambling when
+    that engine converts output, context and statement snapshots, and the reuse oracle - the result equals that of an
+    engine built from scratch by another factory with the same effective options, on an equal new document."""
+    per_combo = 3 if tier == 'quick' else 14
+    ref_factory = yaql.YaqlFactory()
+    refs = {}
+    bases = {}          # building an engine builds a parser (~0.15 s): base engines live across histories, as a host's do
+    spell = 0
+    for (bci, bco) in CONV:
+        for (dci, dco) in CONV:
+            for deriv in DERIVATIONS:
+                for text0 in rng.sample(PROV_TEXTS, per_combo):
+                    # half of the histories spell the expression as no engine has seen it yet (so "who parsed it first" is
+                    # exactly `first`), the others meet engines that parsed the text in earlier histories
+                    spell += 1
+                    text = text0 + ' ' * spell if rng.random() < 0.5 else text0
+                    mk = rng.choice(PROV_DATA)
+                    data = mk()
+                    first = rng.choice(['base', 'derived'])
+                    extra = rng.choice([{}, {}, {'yaql.convertTuplesToLists': False}, {'yaql.convertSetsToLists': True}])
+                    base_opts = {'yaql.limitIterators': 100, 'yaql.memoryQuota': 4000000}
+                    if not (bci and bco and rng.random() < 0.5):       # the defaults are sometimes left unset
+                        base_opts.update({CI: bci, CO: bco})
+                    dopts = {CI: dci, CO: dco}
+                    dopts.update(extra)
+                    bk = tuple(sorted(base_opts.items()))
+                    if bk not in bases:
+                        bases[bk] = world.factory.create(options=dict(base_opts))
+                    base = bases[bk]
+                    eff = {'base': dict(base_opts), 'derived': dict(base_opts, **dopts)}
+                    kept = []
+
+                    def statement(who):
+                        if who == 'base':
+                            return base(text)
+                        if deriv == 'copy':
+                            return base.copy(dopts)(text)
+                        if deriv == 'copy-kept':
+                            if not kept:
+                                kept.append(base.copy(dopts))
+                            return kept[0](text)
+                        if deriv == 'percall':
+                            return base(text, options=dopts)
+                        # a copy of a copy: through an intermediate engine with the opposite conversion options
+                        return base.copy({CI: not dci, CO: not dco}).copy(dopts)(text)
+                    order = [first, 'derived' if first == 'base' else 'base'] * 2
+                    if rng.random() < 0.3:
+                        order.insert(2, order[1])
+                    case = dict(part='provenance', text=text, base=[bci, bco], derived=[dci, dco], how=deriv, first=first,
+                                extra=extra, data=pyrepr(data), order=order)
+                    res.case(('prov', text0, bci, bco, dci, dco, deriv, first), nontrivial=(bci, bco) != (dci, dco),
+                             sample=case if (deriv, text0) == ('copy', '$.a') else None)
+                    hist['prov-' + deriv] = hist.get('prov-' + deriv, 0) + 1
+                    for i, who in enumerate(order):
+                        o = eff[who]
+                        ci, co = o.get(CI, True), o.get(CO, True)
+                        try:
+                            st = statement(who)
+                        except Exception as e:      # noqa
+                            hist['prov-parse-error'] = hist.get('prov-parse-error', 0) + 1
+                            break
+                        if i == 2 and rng.random() < 0.5:
+                            data['a'].append([9])       # the host changes its document between evaluations
+                        out, fails = observe(world, text, data, ci, st=st, eopts=dict(conv_out=co))
+                        hist['prov-' + out[0]] = hist.get('prov-' + out[0], 0) + 1
+                        hist['prov-used-ci=%s,co=%s' % (ci, co)] = hist.get('prov-used-ci=%s,co=%s' % (ci, co), 0) + 1
+                        where = 'evaluation %d (%s engine, effective %s=%s %s=%s; base %s, derived by %s with %s, %s parsed first)' % (
+                            i + 1, who, CI, ci, CO, co, base_opts, deriv, dopts, first)
+                        for key, what in fails:
+                            res.fail('oracle', key, 'provenance: %s - expression %s, %s, data %s' % (what, text, where, pyrepr(data)),
+                                     dict(case, failing_evaluation=i))
+                            return
+                        # reuse: an engine built from scratch with the same effective options, fresh parse, equal new document
+                        rk = tuple(sorted(o.items()))
+                        if rk not in refs:
+                            refs[rk] = ref_factory.create(options=dict(o))
+                        ref = world.run(refs[rk](text), copy.deepcopy(data), host_chain(world.root, [1, [2, 3], {'k': [4]}]))
+                        if out[0] == 'err' or ref[0] == 'err':
+                            same = out == ref or 'Timeout' in (out[1], ref[1])
+                        else:
+                            loose = bool(o.get('yaql.convertSetsToLists'))
+                            a, b = world.last_canon, canon_result(ref[1])
+                            if loose:
+                                a, b = loosen(a), loosen(b)
+                            same = a == b or opaque_in(a) or opaque_in(b)
+                        if not same:
+                            res.fail('oracle', 'reuse-differs',
+                                     'provenance: expression %s, %s gives %s; an engine built by a factory with the same options '
+                                     'gives %s on an equal document %s' % (text, where, short(world.last_out), short(ref), pyrepr(data)),
+                                     dict(case, failing_evaluation=i))
+                            return
+                    res.traces += 1
+
+
+# ====================================================================================== host entry points
+
+ENTRY_KW = ['a', 'b', 'k', 'n', 'top']         # keyword parameters; `n` and `top` shadow variables the host chain binds
+ENTRY_PROBE = '[$1, $2, $3, $a, $b, $k]'
+ENTRY_EXPRS = [ENTRY_PROBE, ENTRY_PROBE, ENTRY_PROBE, '$', '$2', '$a', '$b', '[$, $a, $n, $top, $m]', '$1.len() + $2.len()',
+               '$a.len()', 'let(a => 1) -> [$a, $b]', '$1.set(z, $a)', '[$2, $k].select($)', '$k.toList()', '$hostList',
+               '[$hostList, $a, $1]', '[$hb, $hc]', '$1.a', '[$3, $2, $1]', 'def(f, $a) -> f()', '$a.insert(0, $2)',
+               '$1 + $2', '[$n, $top]', 'with($a, $b) -> [$1, $2, $a]', '$.where($ != $k)']
+ENTRY_VALUES = [lambda: [1, [2]], lambda: {'x': [1], 'y': {'z': 2}}, lambda: 5, lambda: 'ab', lambda: None, lambda: {3, 4},
+                lambda: [], lambda: [[{'q': [0]}]], lambda: {'a': [7, 8]}, lambda: [3, 1, 2]]
+ENTRY_STUBS = [('len', 1, False), ('list', 2, False), ('toList', 0, True), ('len', 0, True), ('set', 2, True), ('insert', 2, True),
+               ('reverse', 0, True), ('keys', 0, True), ('values', 0, True), ('flatten', 0, True), ('distinct', 0, True),
+               ('sum', 0, True), ('max', 2, False), ('str', 1, False), ('delete', 1, True), ('append', 1, True), ('mergeWith', 1, True)]
+ENTRY_GET = ['n', 'top', 'hostList', 'a', 'k', '$2', '$', 'hb', 'm', 'sideVar', 'linkVar']
+ENTRY_KINDS = ['plain', 'multi', 'linked']
+
+
+def entry_context(world, kind, hv, hostsets):
+    """the context the host wraps / supplies: the 3-layer chain itself, a MultiContext over it and a free-standing
+    context, or a LinkedContext whose parent is the chain"""
+    hc = host_chain(world.root, hv)
+    if kind == 'plain':
+        ctx = hc
+    elif kind == 'multi':
+        side = contexts.Context()
+        side['sideVar'] = 5
+        ctx = contexts.MultiContext([hc, side])
+    else:
+        tgt = contexts.Context()
+        tgt['linkVar'] = 6
+        ctx = contexts.LinkedContext(parent_context=hc, linked_context=tgt)
+    for k, v in hostsets:
+        ctx[k] = v
+    return ctx
+
+
+def entry_op(rng):
+    r = rng.random()
+    nv = len(ENTRY_VALUES)
+    if r < 0.5:
+        return dict(o='call', expr=rng.choice(ENTRY_EXPRS), args=[rng.randrange(nv) for _ in range(rng.choice([0, 1, 2, 2, 3, 3]))],
+                    kwargs={k: rng.randrange(nv) for k in rng.sample(ENTRY_KW, rng.choice([0, 1, 2, 2, 3]))})
+    if r < 0.65:
+        fn, n, recv = rng.choice(ENTRY_STUBS)
+        return dict(o='stub', fn=fn, recv=rng.randrange(nv) if recv else None, args=[rng.randrange(nv) for _ in range(n)])
+    if r < 0.72:
+        return dict(o='get', name=rng.choice(ENTRY_GET))
+    if r < 0.78:
+        return dict(o='hostset', name=rng.choice(['hb', 'hc']), value=rng.randrange(nv))
+    if r < 0.9:
+        return dict(o='stmt', expr=rng.choice(ENTRY_EXPRS), data=rng.randrange(nv), on=rng.choice(['ctx', 'child', 'child']))
+    return dict(o='stmt-nodata', expr=rng.choice(ENTRY_EXPRS))
+
+
+def entry_text(op):
+    """the host's line of Python"""
+    val = lambda i: pyrepr(ENTRY_VALUES[i]())       # noqa
+    if op['o'] == 'call':
+        return 'yi(%r%s%s)' % (op['expr'], ''.join(', ' + val(i) for i in op['args']),
+                               ''.join(', %s=%s' % (k, val(i)) for k, i in op['kwargs'].items()))
+    if op['o'] == 'stub':
+        return 'yi%s.%s(%s)' % ('' if op['recv'] is None else '.on(%s)' % val(op['recv']), op['fn'], ', '.join(val(i) for i in op['args']))
+    if op['o'] == 'get':
+        return 'yi[%r]' % op['name']
+    if op['o'] == 'hostset':
+        return 'yi[%r] = %s' % (op['name'], val(op['value']))
+    if op['o'] == 'stmt':
+        return 'engine(%r).evaluate(data=%s, context=%s)' % (op['expr'], val(op['data']),
+                                                            'ctx' if op['on'] == 'ctx' else 'ctx.create_child_context()')
+    return 'engine(%r).evaluate(context=ctx)' % op['expr']
+
+
+def entry_exec(world, op, yi, ctx, engine, vals):
+    """run one host operation; `vals`: the host objects passed (built by the caller, so it can snapshot them)"""
+    if op['o'] == 'call':
+        n = len(op['args'])
+        return world.call(lambda: yi(op['expr'], *vals[:n], **dict(zip(op['kwargs'], vals[n:]))))
+    if op['o'] == 'stub':
+        if op['recv'] is None:
+            return world.call(lambda: getattr(yi, op['fn'])(*vals))
+        return world.call(lambda: getattr(yi.on(vals[0]), op['fn'])(*vals[1:]))
+    if op['o'] == 'get':
+        return world.call(lambda: yi[op['name']])
+    if op['o'] == 'hostset':
+        yi[op['name']] = vals[0]
+        return ('ok', None)
+    if op['o'] == 'stmt':
+        c = ctx if op['on'] == 'ctx' else ctx.create_child_context()
+        return world.run(engine(op['expr']), vals[0], c)
+    return world.call(lambda: engine(op['expr']).evaluate(context=ctx))
+
+
+def entry_vals(op):
+    if op['o'] == 'call':
+        return [ENTRY_VALUES[i]() for i in op['args']] + [ENTRY_VALUES[i]() for i in op['kwargs'].values()]
+    if op['o'] == 'stub':
+        return ([] if op['recv'] is None else [ENTRY_VALUES[op['recv']]()]) + [ENTRY_VALUES[i]() for i in op['args']]
+    if op['o'] == 'hostset':
+        return [ENTRY_VALUES[op['value']]()]
+    if op['o'] == 'stmt':
+        return [ENTRY_VALUES[op['data']]()]
+    return []
+
+
+def run_entry(world, res, rng, tier, hist):
+    """Sessions of a host that built `YaqlInterface(host_context, engine)` itself around a context of each of the three
+    classes and mixes `yi(expr, *args, **kwargs)`, `yi.<function>(..)`, `yi.on(x).<function>(..)`, `yi[name]`,
+    `yi[name] = v` (its own binding) with plain statement evaluations on the same context.  Around every operation: deep
+    snapshot (+ identities) of every object the host ever passed in and of the variable values it keeps in contexts,
+    snapshot of every context reachable from the wrapped one (nothing may differ - `$` only when a statement was
+    evaluated with data directly on it), alias scan + scrambling of the result, and history independence: the operation
+    gives the same result on a newly built equal context that has seen nothing but the host's own bindings (so a
+    parameter of an earlier call reads as null unless the host bound it)."""
+    from yaql import yaql_interface
+    nsess = 54 if tier == 'quick' else 600
+    for si in range(nsess):
+        kind = ENTRY_KINDS[si % 3]
+        ci, co = CONV[(si // 3) % 4]
+        engine = world.engine(conv_in=ci, conv_out=co)
+        hv = [1, [2, 3], {'k': [4]}]
+        hostsets = []           # what the host bound itself through yi[name] = value: (name, index into ENTRY_VALUES)
+        dollar = None           # the document a statement evaluated directly on the wrapped context bound to `$`
+        ctx = entry_context(world, kind, hv, [])
+        yi = yaql_interface.YaqlInterface(ctx, engine)
+        held = [hv]             # every object the host passed in so far: it still owns them
+        lines = []
+        for oi in range(rng.randrange(4, 10)):
+            op = entry_op(rng)
+            vals = entry_vals(op)
+            lines.append(entry_text(op))
+            hist['entry-' + op['o']] = hist.get('entry-' + op['o'], 0) + 1
+            hist['entry-on-' + kind] = hist.get('entry-on-' + kind, 0) + 1
+            res.case(('entry', kind, op['o'], op.get('expr') or op.get('fn') or op.get('name'), ci, co), nontrivial=False,
+                     sample=dict(part='entry', context=kind, session=lines[-3:]) if si < 3 and oi == 3 else None)
+            snaps = [Snapshot(x) for x in held + vals]
+            ids = {}
+            for sn in snaps:
+                for pth, o in sn.nodes:
+                    if type(o) in MUTABLE:
+                        ids[id(o)] = pth
+            cb = ctx_snapshot(ctx_objects(ctx), world.lib_ids)
+            out = entry_exec(world, op, yi, ctx, engine, vals)
+            hist['entry-' + out[0]] = hist.get('entry-' + out[0], 0) + 1
+            rp = dict(part='entry', context=kind, options={CI: ci, CO: co}, session=list(lines))
+            tell = '%s context wrapped, engine %s=%s %s=%s; host session:  %s' % (kind, CI, ci, CO, co, ';  '.join(lines))
+            for sn, x in zip(snaps, held + vals):
+                d = sn.diff(Snapshot(x))
+                if d:
+                    res.fail('oracle', 'data-mutated', 'entry: the last operation changed host data %s: %s (%s)' % (short(x), d, tell), rp)
+                    return
+            if op['o'] == 'hostset':
+                hostsets.append((op['name'], op['value']))
+                held += vals
+                continue
+            on_ctx = op['o'] == 'stmt' and op['on'] == 'ctx'
+            tgt = write_target(ctx)
+            d = ctx_diff(cb, ctx_snapshot(ctx_objects(ctx), world.lib_ids), id(tgt) if (on_ctx and tgt is not None) else None, on_ctx)
+            if d:
+                res.fail('oracle', 'context-changed', 'entry: the last operation changed the host\'s context chain: %s (%s)' % (d, tell), rp)
+                return
+            canon = deep(out[1], (), []) if out[0] == 'ok' else None
+            converts = op['o'] in ('call', 'stub') or (op['o'] in ('stmt', 'stmt-nodata') and co)
+            if out[0] == 'ok' and converts:
+                nodes = []
+                walk_result(out[1], nodes)
+                hit = [n for n in nodes if type(n) in MUTABLE and id(n) in ids]
+                if hit:
+                    res.fail('oracle', 'result-aliases-host', 'entry: a %s of the result IS a host object (at %s of an argument) (%s)' % (
+                        type(hit[0]).__name__, ids[id(hit[0])], tell), rp)
+                    return
+                scramble(nodes)
+                for sn, x in zip(snaps, held + vals):
+                    d = sn.diff(Snapshot(x))
+                    if d:
+                        res.fail('oracle', 'result-aliases-host', 'entry: changing the result changed host data: %s (%s)' % (d, tell), rp)
+                        return
+            # history independence: the same operation on a newly built equal context
+            ctx2 = entry_context(world, kind, [1, [2, 3], {'k': [4]}], [(k, ENTRY_VALUES[i]()) for k, i in hostsets])
+            if dollar is not None:
+                engine('null').evaluate(data=ENTRY_VALUES[dollar](), context=ctx2)
+            ref = entry_exec(world, op, yaql_interface.YaqlInterface(ctx2, engine), ctx2, engine, entry_vals(op))
+            if out[0] == 'err' or ref[0] == 'err':
+                same = out == ref or 'Timeout' in (out[1], ref[1])
+            else:
+                b = deep(ref[1], (), [])
+                same = canon == b or opaque_in(canon) or opaque_in(b)
+            if not same:
+                res.fail('oracle', 'reuse-differs', 'entry: the last operation gives %s; on a newly prepared equal context it gives %s - '
+                         'it sees what earlier operations left behind (%s)' % (short(canon if canon is not None else out), short(ref), tell), rp)
+                return
+            if op['o'] == 'call' and op['expr'] == ENTRY_PROBE and out[0] == 'ok':
+                # spelled out: a parameter name reads as null unless THIS call passed it (the host binds none of these)
+                n = len(op['args'])
+                exp = [vals[i] if i < n else None for i in range(3)] + [dict(zip(op['kwargs'], vals[n:])).get(k) for k in 'abk']
+                for j, (name, e) in enumerate(zip(['$1', '$2', '$3', '$a', '$b', '$k'], exp)):
+                    if name == '$1' and n == 0 and dollar is not None:
+                        continue        # `$` bound by an earlier statement evaluated on the context: the documented exception
+                    if deep(e, (), []) != canon[1][j]:
+                        res.fail('oracle', 'reuse-differs', 'entry: %s reads as %s in the last call, which passed %s (%s)' % (
+                            name, short(canon[1][j]), 'nothing under that name' if e is None else pyrepr(e), tell), rp)
+                        return
+            if on_ctx:
+                dollar = op['data']
+            held += vals
+        res.traces += 1
+    # ---- yaql.create_context(data=doc): the host binds the document when it builds the context
+    ndocs = 6 if tier == 'quick' else 40
+    for di in range(ndocs):
+        mk = rng.choice(PROV_DATA)
+        doc = mk()
+        before = Snapshot(doc)
+        ids = {id(o): pth for pth, o in before.nodes if type(o) in MUTABLE}
+        ctx = yaql.create_context(data=doc)
+        ref_ctx = yaql.create_context(data=mk())
+        rp = dict(part='entry', what='create_context', data=pyrepr(doc))
+        d = before.diff(Snapshot(doc))
+        if d:
+            res.fail('oracle', 'data-mutated', 'entry: yaql.create_context(data=%s) changed the document: %s' % (pyrepr(doc), d), rp)
+            return
+        for text in rng.sample([t for t in PROV_TEXTS if 'hostList' not in t], 6):
+            ci, co = rng.choice(CONV)
+            engine = world.engine(conv_in=ci, conv_out=co)
+            on = rng.choice(['ctx', 'child'])
+            cb = ctx_snapshot(ctx_objects(ctx))
+            c = ctx if on == 'ctx' else ctx.create_child_context()
+            out = world.call(lambda: engine(text).evaluate(context=c))
+            res.case(('entry', 'create_context', text, ci, co), nontrivial=False)
+            hist['entry-create_context-' + out[0]] = hist.get('entry-create_context-' + out[0], 0) + 1
+            tell = 'ctx = yaql.create_context(data=%s); engine(%r).evaluate(context=%s) with %s=%s %s=%s' % (
+                pyrepr(doc), text, 'ctx' if on == 'ctx' else 'ctx.create_child_context()', CI, ci, CO, co)
+            d = before.diff(Snapshot(doc))
+            if d:
+                res.fail('oracle', 'data-mutated', 'entry: %s changed the document: %s' % (tell, d), rp)
+                return
+            d = ctx_diff(cb, ctx_snapshot(ctx_objects(ctx)), None, False)
+            if d:
+                res.fail('oracle', 'context-changed', 'entry: %s changed the context: %s' % (tell, d), rp)
+                return
+            canon = deep(out[1], (), []) if out[0] == 'ok' else None
+            if out[0] == 'ok':          # create_context converts the document whatever the engine's options: nothing of the host's is reachable
+                nodes = []
+                walk_result(out[1], nodes)
+                hit = [n for n in nodes if type(n) in MUTABLE and id(n) in ids]
+                if hit:
+                    res.fail('oracle', 'result-aliases-host', 'entry: %s: a %s of the result IS the host object at %s' % (
+                        tell, type(hit[0]).__name__, ids[id(hit[0])]), rp)
+                    return
+                if co:
+                    scramble(nodes)
+                    d = before.diff(Snapshot(doc))
+                    if d:
+                        res.fail('oracle', 'result-aliases-host', 'entry: %s: changing the result changed the document: %s' % (tell, d), rp)
+                        return
+            ref = world.call(lambda: engine(text).evaluate(context=ref_ctx.create_child_context()))
+            if out[0] == 'err' or ref[0] == 'err':
+                same = out == ref or 'Timeout' in (out[1], ref[1])
+            else:
+                b = deep(ref[1], (), [])
+                same = canon == b or opaque_in(canon) or opaque_in(b)
+            if not same:
+                res.fail('oracle', 'reuse-differs', 'entry: %s gives %s, a context newly created on an equal document gives %s' % (
+                    tell, short(canon if canon is not None else out), short(ref)), rp)
+                return
 
 
 # ====================================================================================== ctx (trace + model)
@@ -1014,6 +1459,7 @@ CTX_FNAMES = ['f', 'g', 'f_']
 
 def run_ctx(world, drv, res, rng, tier, hist):
     from props import c17
+    from yaql import yaql_interface
     n = 60 if tier == 'quick' else 800
     batch, metas = [], []
     for ci in range(n):
@@ -1067,10 +1513,20 @@ def run_ctx(world, drv, res, rng, tier, hist):
                 st = world.parse(text, conv_in=cin)
             except Exception:   # noqa
                 continue
+            icall = None
+            if rng.random() < 0.35:
+                # the host evaluates through YaqlInterface(ctx, engine)(text, *args, **kwargs) instead
+                kws = rng.sample(['x', 'y', 'k'], rng.randrange(0, 3))
+                icall = ([rng.choice([0, 1, 5, 7]) for _ in range(rng.randrange(0, 3))], {k: rng.choice([2, 3]) for k in kws})
+                with_data = False
             objs = ctx_objects(ctx)
             cb = ctx_snapshot(objs, world.lib_ids)
             with Tracer() as tr:
-                out = world.run(st, v if with_data else utils.NO_VALUE, ctx)
+                if icall:
+                    yi = yaql_interface.YaqlInterface(ctx, world.engine(conv_in=cin))
+                    out = world.call(lambda: yi(text, *icall[0], **icall[1]))
+                else:
+                    out = world.run(st, v if with_data else utils.NO_VALUE, ctx)
             hist['ctx-' + (out[0] if out[0] == 'ok' else out[1])] = hist.get('ctx-' + (out[0] if out[0] == 'ok' else out[1]), 0) + 1
             res.case(('ctx', text, type(ctx).__name__, with_data), sample=dict(part='ctx', text=text, on=type(ctx).__name__))
             # ---- oracle 1: trace discipline - writes only to contexts created during this evaluation
@@ -1082,6 +1538,22 @@ def run_ctx(world, drv, res, rng, tier, hist):
             if with_data and events and events[0][0] == 'set' and events[0][1] is ctx:
                 idx = 1                 # `context['$'] = ..` of Statement.evaluate
             frames = [ctx]
+            params = []
+            if icall:
+                hist['ctx-interface-calls'] = hist.get('ctx-interface-calls', 0) + 1
+                # the private child of the call and the parameters published there are the interface's own doing
+                if events and events[0][0] == 'child' and events[0][1] is ctx:
+                    frames = [events[0][4]]
+                    idx = 1
+                    npar = len(icall[0]) + len(icall[1])
+                    while idx < len(events) and len(params) < npar and events[idx][0] == 'set' and events[idx][1] is frames[0]:
+                        params.append([events[idx][2][0], events[idx][2][1]])
+                        idx += 1
+                elif events and events[0][0] != 'child' and any(events[0][1] is c for c in objs):
+                    undisciplined = 'the interface call began with %s%s on a context of the host chain' % (events[0][0], short(events[0][2]))
+                elif events:
+                    hist['ctx-interface-call-shape-unknown'] = hist.get('ctx-interface-call-shape-unknown', 0) + 1
+                    continue            # not the shape the model describes: judged by the snapshot of the entry part only
             for kind, obj, a, kw_, r in events[idx:]:
                 if kind == 'child':
                     if not any(obj is f for f in frames):
@@ -1100,18 +1572,26 @@ def run_ctx(world, drv, res, rng, tier, hist):
                     steps.append(dict(s='set', f=fi[0], n=a[0], v=val))
                 elif kind == 'reg':
                     steps.append(dict(s='reg', f=fi[0], fn='gen%d' % len(steps), id=1000 + len(steps), x=False))
+            doing = ('YaqlInterface(ctx, engine)(%r%s%s)' % (text, ''.join(', %r' % a for a in icall[0]),
+                                                           ''.join(', %s=%r' % kv for kv in icall[1].items()))
+                     if icall else 'evaluating %r' % text)
             if undisciplined:
-                res.fail('oracle', 'context-changed', 'ctx: evaluating %r wrote to the host\'s contexts: %s' % (text, undisciplined),
-                         dict(part='ctx', ops=ops, text=text, h=h, data=v if with_data else None))
+                res.fail('oracle', 'context-changed', 'ctx: %s on a %s wrote to the host\'s contexts: %s' % (
+                    doing, type(ctx).__name__, undisciplined),
+                         dict(part='ctx', ops=ops, text=text, h=h, data=v if with_data else None, interface_call=icall))
                 return
             # ---- oracle 2: snapshot
             tgt = write_target(ctx)
             d = ctx_diff(cb, ctx_snapshot(ctx_objects(ctx), world.lib_ids), id(tgt) if tgt is not None else None, with_data)
             if d:
-                res.fail('oracle', 'context-changed', 'ctx: evaluating %r on a %s changed the host chain: %s' % (
-                    text, type(ctx).__name__, d), dict(part='ctx', ops=ops, text=text, h=h, data=v if with_data else None))
+                res.fail('oracle', 'context-changed', 'ctx: %s on a %s changed the host chain: %s' % (
+                    doing, type(ctx).__name__, d), dict(part='ctx', ops=ops, text=text, h=h, data=v if with_data else None,
+                                                       interface_call=icall))
                 return
-            evals.append(dict(o='eval', h=h, data=with_data, v=v, fin=999, steps=steps, text=text, cin=cin))
+            if icall:
+                evals.append(dict(o='icall', h=h, params=params, fin=999, steps=steps, text=text, cin=cin, args=icall[0], kwargs=icall[1]))
+            else:
+                evals.append(dict(o='eval', h=h, data=with_data, v=v, fin=999, steps=steps, text=text, cin=cin))
             all_ops = all_ops + [evals[-1]]
             real_ops.append((evals[-1], 'ok'))
         if not evals:
@@ -1490,7 +1970,7 @@ def replay_case(world, drv, res, case, hist):
         from props import evalstore
         evalstore.run(dict(driver=drv, tier=case.get('tier', 'quick'), seed=case.get('seed', 0), replay_case=case), res, hist, ID)
         return True
-    if part in ('pool', 'ctx', 'conv', 'yaqlized', 'yaqleval') and 'seed' in case:
+    if part in ('pool', 'ctx', 'conv', 'yaqlized', 'yaqleval', 'provenance', 'entry') and 'seed' in case:
         rng = common.make_rng(case['seed'], ID + part)
         tier = case.get('tier', 'quick')
         if part == 'pool':
@@ -1501,6 +1981,10 @@ def replay_case(world, drv, res, case, hist):
             run_conv(world, drv, res, rng, tier, hist)
         elif part == 'yaqleval':
             run_yaqleval(world, res, rng, tier, hist)
+        elif part == 'provenance':
+            run_provenance(world, res, rng, tier, hist)
+        elif part == 'entry':
+            run_entry(world, res, rng, tier, hist)
         else:
             run_yaqlized(world, res, hist)
         return True
@@ -1516,7 +2000,10 @@ def run(env, res):
     res.rule = ('sweep: one case per (registered function, parameter admitting a raw list/dict/set by its live type check, '
                 'nested value shape, lambda text, function/method spelling, convertInputData mode); distinct = distinct '
                 '(function, parameter, value shape, mode) whose payload was entered; pool / ctx / conv cases by '
-                '(statement, data, context shape) resp. digest of the generated document and options')
+                '(statement, data, context shape) resp. digest of the generated document and options; provenance: one '
+                'history per (base conversion options, derived conversion options, derivation, expression, who parses '
+                'first), non-trivial when the two option sets differ; entry: one case per host operation of a session '
+                '(context class, operation kind, expression / function, engine options)')
     if env.get('replay'):
         rp = json.load(open(env['replay']))
         case = rp.get('case') or rp
@@ -1588,6 +2075,8 @@ def run(env, res):
                      ('ctx', lambda r: run_ctx(world, drv, res, r, tier, hist)),
                      ('conv', lambda r: run_conv(world, drv, res, r, tier, hist)),
                      ('yaqleval', lambda r: run_yaqleval(world, res, r, tier, hist)),
+                     ('provenance', lambda r: run_provenance(world, res, r, tier, hist)),
+                     ('entry', lambda r: run_entry(world, res, r, tier, hist)),
                      ('yaqlized', lambda r: run_yaqlized(world, res, hist)),
                      ('evalstore', lambda r: run_evalstore(env, res, hist))):
         if res.failures:
@@ -1633,7 +2122,15 @@ LEVEL_TEXT = ('Lean 4 theorems over (1) a model of utils.convert_input_data / co
               'x every position admitting a raw list / dict / set, nested shapes, both input-conversion modes; the '
               'context classes are instrumented (creation serials, every __setitem__ / __delitem__ / register_function / '
               'delete_function) under generated programs of the core fragment: no write to a context that existed before, '
-              'none to a context that already has a child, and the tree of contexts created / names written is the model\'s.')
+              'none to a context that already has a child, and the tree of contexts created / names written is the model\'s.  '
+              'Host entry points: YaqlInterface.__call__ is modelled as a host step (private child, parameters published there, '
+              'evaluation without data, child dropped): interface_call_frame - any number of interface calls leaves every cell '
+              'of the wrapped chain (plain, multi, linked) unchanged, `$` included -, interface_call_reads, '
+              'interface_history_independent (statements evaluated afterwards return what they return on the prepared store), '
+              'interface_probe_reads (a later call reads only its own parameters); the harness runs sessions of host-built '
+              'interfaces around the three context classes, create_context(data=..) and yaql.eval with the same snapshots, and '
+              'engines derived by engine.copy / per-call options from engines with other conversion options, each evaluation '
+              'judged by the options of the engine the host used.')
 LEVEL_NOTE = ('partial: aliasing is modelled with allocation identities, not a heap; the evaluator\'s discipline and locality '
               'are hypotheses of the store-level theorems, discharged for the store-passing evaluator model of the core '
               'fragment (Model/EvalStore.lean: mutable context cells, a child context per function call, lambdas capturing '
